@@ -106,6 +106,9 @@ func genRace(c *hx.Ctx) {
 	//      state and transition
 	for n := 1; n <= c.Budget(4, 5); n++ {
 		for q := 0; q < n; q++ {
+			if !c.Thorough() && n == 4 && (q == 1 || q == 2) {
+				continue // quick: smallest and largest offset only on the 4-bucket wheel
+			}
 			explore(c, "race_cover_ticks_1req", n, step, [][]op{nop(int64(q) * step)}, 0, c.Budget(n+1, 2*n+1), true)
 		}
 	}
@@ -117,6 +120,9 @@ func genRace(c *hx.Ctx) {
 		}
 		for q1 := 0; q1 < n; q1++ {
 			for q2 := q1; q2 < n; q2++ {
+				if !c.Thorough() && n == 3 && q1 == q2 && q1 > 0 {
+					continue // quick: equal offsets only for k = 0 on the 3-bucket wheel
+				}
 				explore(c, "race_cover_2req", n, step, [][]op{nop(int64(q1) * step), nop(int64(q2) * step)}, 1, ticks, true)
 			}
 		}
@@ -211,6 +217,12 @@ func randOps(r *hx.Rng, st int64, n int) []op {
 }
 
 func genPure(c *hx.Ctx) {
+	for _, st := range []int64{-1000000, -1, 0, 1, 1000000} {
+		for _, n := range []int{-64, -1, 0, 1, 2, 64} {
+			c.Emit("ctor %d %d", st, n)
+			c.Count("ctor")
+		}
+	}
 	// exhaustive small: step 1..3, n 1..4, base and arg over [-1, step*n+1]
 	for st := int64(1); st <= 3; st++ {
 		for n := 1; n <= 4; n++ {
